@@ -191,7 +191,7 @@ Definition j_up := mkjob "36a2387d55e1779c0d212256c1d657cd" (sp_a (JStr (q "../.
 Definition orc (js : list job) : oracle :=
   {| o_asc := true; o_frepr := []; o_text := [];
      o_parse := List.map (fun j => (match fs_get [FN_SP] (j_files j) with Some (Some c) => c | _ => [] end, j_sp j)) js;
-     o_rel := false |}.
+     o_rel := false; o_origin := [] |}.
 
 (* the ids used above are the real ones: the model recomputes them *)
 Lemma witness_ids :
@@ -296,7 +296,7 @@ Proof. intros k Hk. destruct Hk as [<-|[<-|[<-|[]]]]; vm_compute; repeat split. 
 (* a relative one-component directory target and a job whose path is the target itself:
    _mkdir_p('') raises before anything is created (original behaviour; allowed by C16) *)
 Lemma rel_target_example :
-  let o := {| o_asc := true; o_frepr := []; o_text := []; o_parse := o_parse (orc [j_a1]); o_rel := true |} in
+  let o := {| o_asc := true; o_frepr := []; o_text := []; o_parse := o_parse (orc [j_a1]); o_rel := true; o_origin := [] |} in
   (let e := export_model o [j_a1] KDir PNone in eo_exn e = Some EOSError /\ art_empty (eo_art e) = true)
   /\ (let e := export_model o root_jobs KDir PNone in eo_exn e = None /\ eo_map e = [q "a/1"; q "a/2"]).
 Proof. vm_compute. repeat split. Qed.
@@ -438,7 +438,7 @@ Definition j_e1 := mkjob "42b7b4f2921788ea14dac5566e6f06d0" (sp_a (JInt 1)) "{""
 Definition j_e2 := mkjob "9f8a8e5ba8c70c774d410a9107e2a32b" (sp_a (JInt 2)) "{""a"": 2}" [([q "emptydir"], None)].
 Definition f21_jobs := [j_e1; j_e2].
 Definition orc_desc (js : list job) : oracle :=
-  {| o_asc := false; o_frepr := []; o_text := []; o_parse := o_parse (orc js); o_rel := false |}.
+  {| o_asc := false; o_frepr := []; o_text := []; o_parse := o_parse (orc js); o_rel := false; o_origin := [] |}.
 
 Lemma f21_repaired :
   (forall k, In k [KZip; KTar; KDir] ->
@@ -481,7 +481,7 @@ Definition orc_nest : oracle :=
   {| o_asc := true; o_frepr := []; o_text := [];
      o_parse := [(q "{""a"": 1}", sp_a (JInt 1)); (q "{""a"": 2}", sp_a (JInt 2));
                  (q "{""inner"": 7}", inner_sp 7); (q "{""inner"": 8}", inner_sp 8)];
-     o_rel := false |}.
+     o_rel := false; o_origin := [] |}.
 Lemma nested_project_example :
   forall k, In k [KDir; KZip; KTar] ->
   let e := export_model orc_nest [j_nest; j_a2] k PNone in
